@@ -31,6 +31,7 @@ type Gen struct {
 	stopAt    int
 	between   int
 	midStop   bool
+	drainFirst bool
 	mass      int // >0: many sessions with 8 periodic URRs of one period (batch limit)
 	massPeriod uint32
 }
@@ -99,6 +100,13 @@ func profileConfig(p string, seed uint64) RunConfig {
 		case 4:
 			c.TxSeqStart = r.Uint32()
 		}
+		if r.IntN(4) == 0 {
+			// a slow data plane against short timers: retransmission timers expire, and
+			// answers arrive, while the event loop is inside a turn
+			c.KernLatency = pick(r, 40, 150)
+			c.RetransMs = pick(r, 137, 311)
+			c.MaxRetrans = 1 + r.IntN(3)
+		}
 	case "C11":
 		if r.IntN(2) == 0 {
 			// a report whose first transmission fails is retransmitted later: the numbering
@@ -137,6 +145,19 @@ func profileConfig(p string, seed uint64) RunConfig {
 			c.KernLatency = pick(r, 300, 700, 1200)
 			c.Steps = 10 + r.IntN(15)
 			c.Knobs = map[string]int{"EVENT_CHANNEL_LEN": pick(r, 1, 2, 4)}
+			if r.IntN(2) == 0 {
+				// transaction timers expire while the loop waits for the data plane, into a
+				// short time-out queue
+				c.Knobs["TRANS_TIMEOUT_CHANNEL_LEN"] = pick(r, 1, 2)
+				c.RetransMs = pick(r, 137, 311)
+				c.AutoAnswer = false
+			}
+		} else if r.IntN(3) == 0 {
+			// short input queues of the event loop: timer callbacks and the receiver are
+			// then regularly found blocked on them when the stop request comes
+			c.Knobs = map[string]int{"TRANS_TIMEOUT_CHANNEL_LEN": pick(r, 1, 2, 4), "RECEIVE_CHANNEL_LEN": pick(r, 1, 2, 64)}
+			c.RetransMs = pick(r, 137, 311)
+			c.AutoAnswer = false
 		}
 	case "C18":
 		c.Interpose = false
@@ -155,7 +176,20 @@ func profileConfig(p string, seed uint64) RunConfig {
 	if r.IntN(5) == 0 {
 		c.FQDNMask = 1 + r.IntN(15) // some peers name themselves by FQDN
 	}
+	if p != "C17" && r.IntN(pickInt(p == "C15", 3, 8)) == 0 {
+		// log statements as scheduling points (yieldHook); not under the race detector,
+		// where the hook's counter would order the goroutines it parks
+		c.LogLevel = pick(r, "debug", "trace")
+		c.LogYield = pick(r, 10, 30, 60)
+	}
 	return c
+}
+
+func pickInt(cond bool, a, b int) int {
+	if cond {
+		return a
+	}
+	return b
 }
 
 func (c *RunConfig) faultOn(k string) bool {
@@ -212,6 +246,9 @@ func newGen(s *Sim) *Gen {
 		g.perioOK = false
 	case "C09":
 		g.w = map[string]int{"hb": 1, "est": 5, "mod": 2, "krep": 12, "kbufnocp": 5, "ans": 12, "adv": 8, "advrt": 8, "del": 1}
+		if s.cfg.KernLatency > 0 {
+			g.w["armans"], g.w["est"], g.w["mod"] = 8, 8, 6
+		}
 	case "C10", "C11", "C12":
 		g.w = map[string]int{"hb": 1, "est": 6, "mod": 16, "del": 3, "krep": 8, "adv": 3, "reassoc": 1}
 		g.perioOK = true
@@ -237,6 +274,12 @@ func newGen(s *Sim) *Gen {
 		g.mode = "clean"
 		g.perioOK = true
 		g.w = map[string]int{"hb": 2, "est": 8, "mod": 8, "del": 2, "dup": 3, "krep": 6, "kbuf": 4, "adv": 5, "ans": 3, "detach": 5, "farflip": 2}
+		if s.cfg.KernLatency > 0 {
+			g.w["armans"] = 4
+		}
+		if s.cfg.FreePlan {
+			g.w["modurr"], g.w["adv"] = 6, 8
+		}
 	case "C18":
 		g.perioOK = true
 		g.mass = 1
@@ -778,6 +821,12 @@ func (g *Gen) next() (Action, bool) {
 			g.stopAt = len(s.smfs) + 3 + g.intn(max(1, s.cfg.Steps-8))
 			g.between = g.intn(4)
 			g.midStop = g.chance(0.3)
+			g.drainFirst = !g.midStop && g.chance(0.35)
+		}
+		if g.drainFirst && g.n == g.stopAt-1 {
+			// let every retransmission fall due before the stop: the exactly-once check of
+			// time-out events (checkTxDone) then has something to judge
+			return Action{Op: "adv", Ms: int64((s.cfg.MaxRetrans+2)*s.cfg.RetransMs) + 35000}, true
 		}
 		if g.midStop && g.n == g.stopAt-1 {
 			return Action{Op: "armstop", N: 1 + g.intn(8)}, true
@@ -851,6 +900,10 @@ func (g *Gen) one() (Action, bool) {
 				return Action{Op: "send", SMF: m.Idx, Msg: g.perioEst(m, slot, 8, g.massPeriod)}, true
 			}
 			return Action{Op: "send", SMF: m.Idx, Msg: g.perioEst(m, slot, 1+g.intn(4), 0)}, true
+		}
+		if g.s.cfg.FreePlan && g.chance(0.5) {
+			// periodic URRs with short periods: ticks must overlap requests in phase B
+			return Action{Op: "send", SMF: m.Idx, Msg: g.perioEst(m, slot, 1+g.intn(3), uint32(1+g.intn(2)))}, true
 		}
 		return Action{Op: "send", SMF: m.Idx, Msg: g.estMsg(m, slot)}, true
 	case "farflip":
@@ -1178,6 +1231,21 @@ func (g *Gen) modURR() (Action, bool) {
 	}
 	in := &MsgIntent{T: "mod", Seq: g.seq(m), Slot: sl}
 	have := sortedRefs(x.Req, "urr")
+	if len(have) > 0 && g.chance(0.25) {
+		// swap: one URR leaves a period group and another joins the same group in one
+		// message (the group may empty and refill back to back)
+		u := have[g.intn(len(have))]
+		if it := x.Intent[RuleRef{"urr", u}]; it != nil && it.Period != nil && it.Trigger != nil && *it.Trigger&1 != 0 {
+			for c := uint32(1); c <= 8; c++ {
+				if !x.Req[RuleRef{"urr", c}] {
+					p, t, meth := *it.Period, uint32(1), uint8(2)
+					in.Remove = append(in.Remove, RuleRef{"urr", u})
+					in.Create = append(in.Create, RuleIntent{Kind: "urr", ID: c, Method: &meth, Trigger: &t, TrigLen: 2, Period: &p, MInfo: u8p(0)})
+					return Action{Op: "send", SMF: m.Idx, Msg: in}, true
+				}
+			}
+		}
+	}
 	if len(have) > 0 && g.chance(0.55) {
 		in.Remove = append(in.Remove, RuleRef{"urr", have[g.intn(len(have))]})
 	} else {
